@@ -19,9 +19,7 @@ ASSUMPTIONS = ["a name with a prefix the client does not know raises a plain Exc
                "TypeNotFound: unknown *prefixes* are outside the alphabet of unknown names",
                "factory objects of section-5 array types are outside the family",
                "an attribute default sent explicitly means the same as leaving it out (schema default)"]
-PARTIAL = [{"theorem": "fuel adequacy of skeletonMember", "missing": "the model recurses on fuel (64 in the driver); "
-            "that the history makes any fuel > number of members sufficient is checked by the correspondence, "
-            "not proved"}]
+PARTIAL = []
 TRUSTED = ["iface.py reference skeleton"]
 CLASSIFIERS = {}
 
